@@ -36,7 +36,7 @@ from typing import Any, Callable
 
 from easynetwork.lowlevel.api_async.transports.abc import AsyncStreamTransport
 
-from .core import Ctx
+from .core import Ctx, Deadlock, HorizonHit
 
 CERT_DIR = os.path.join(os.path.dirname(os.path.abspath(__file__)), "certs")
 CERT = os.path.join(CERT_DIR, "cert.pem")
@@ -722,8 +722,6 @@ class Relay:
             if self._snapshot() == before:
                 return
             if self.steps > self.max_steps:
-                from .core import HorizonHit
-
                 raise HorizonHit(f"more than {self.max_steps} relay steps")
 
     def drain(self, sel: Any = None, max_steps: int = 64) -> None:
@@ -777,20 +775,23 @@ assert all(len(m) == 20 for m in MARKERS.values())
 
 
 def default_session_trace(kind: str, version: str, lib_role: str) -> tuple:
-    """One default session (handshake, one 300-byte record each way, peer closes, library closes); returns the
-    ciphertext length trace.  Used by ``determinism_guard``."""
+    """One default session (handshake, one 300-byte record each way, peer closes, library closes); returns
+    (session completed with the right plaintext, ciphertext length trace).  Used by ``determinism_guard``."""
     if kind == "async":
         return _default_async(version, lib_role)
     return _default_blocking(version, lib_role)
 
 
 def determinism_guard(kind: str, version: str, lib_role: str) -> tuple:
-    a = default_session_trace(kind, version, lib_role)
-    b = default_session_trace(kind, version, lib_role)
-    if a != b:
+    """The length trace of the default session must be identical in two runs (contents are random and never compared).
+    A default session that FAILS is not a rig fault (the library under test may be broken - the exploration reports
+    that); only differing traces are."""
+    ok_a, a = default_session_trace(kind, version, lib_role)
+    ok_b, b = default_session_trace(kind, version, lib_role)
+    if a != b or ok_a != ok_b:
         raise RigError(f"ciphertext length trace of the default session differs between two runs ({kind}, TLS {version}, "
                        f"library as {lib_role}): {a!r} vs {b!r}")
-    if not a:
+    if ok_a and not a:
         raise RigError("empty length trace")
     return a
 
@@ -824,9 +825,7 @@ def _default_async(version: str, lib_role: str) -> tuple:
         out["ok"] = bytes(got) == pattern("peer", 0, 300) and bytes(relay.peer.received) == pattern("lib", 0, 300)
 
     status, value, _loop = vloop.run(world, main)
-    if status != "ok" or not out.get("ok"):
-        raise RigError(f"default async session failed: {status} {value!r} {out}")
-    return relay.length_trace()
+    return bool(status == "ok" and out.get("ok")), relay.length_trace()
 
 
 def _default_blocking(version: str, lib_role: str) -> tuple:
@@ -856,8 +855,9 @@ def _default_blocking(version: str, lib_role: str) -> tuple:
             got += d
         tr.close()
         relay.drain()
-        if bytes(got) != pattern("peer", 0, 300) or bytes(relay.peer.received) != pattern("lib", 0, 300):
-            raise RigError("default blocking session: wrong plaintext")
+        ok = bytes(got) == pattern("peer", 0, 300) and bytes(relay.peer.received) == pattern("lib", 0, 300)
+    except (Deadlock, HorizonHit, Exception):  # noqa: BLE001 - a failing default session is the exploration's business
+        ok = False
     finally:
         world.restore_clock()
         if tr is not None:
@@ -867,6 +867,6 @@ def _default_blocking(version: str, lib_role: str) -> tuple:
                 pass
         link.close()
     # the blocking direction library->relay is read from a kernel buffer: chunk boundaries there are the kernel's, so
-    # only the per-direction TOTALS of the library side are part of the guard
+    # only the per-direction TOTAL of the library side is part of the guard
     lib_total = sum(n for tag, n in relay.trace if tag == "L")
-    return tuple(t for t in relay.trace if t[0] != "L") + (("L-total", lib_total),)
+    return ok, tuple(t for t in relay.trace if t[0] != "L") + (("L-total", lib_total),)
